@@ -379,6 +379,11 @@ func TestVerifC17(t *testing.T) {
 	if rejected*5 > n {
 		t.Fatalf("%d of %d generated configurations were rejected by config.Parse", rejected, n)
 	}
+	// scrapes and API requests while six long debug requests (delta profiles of 2 s) are being served: they are
+	// answered at once, not queued behind them
+	if id := "c17-busy-debug"; only == "" || only == id {
+		c17BusyDebug(out, id)
+	}
 	// LAST (a blocked prepareMu would block every later case): Apply concurrent with another interface's Prepare,
 	// in real time outside the bubbles
 	if id := "c17-stress-0"; only == "" || only == id {
